@@ -588,3 +588,7 @@ for _p in ('C03', 'C04', 'C08'):
 # adversarial names matter for the aggregate cleanup too (seeded change S104: the single cleanup returned under the literal name)
 for _t in ('quick', 'thorough'):
     PROPS['C04'][_t] = PROPS['C04'][_t] + [sideb(['naming'])]
+
+# Bind under a dot import lives in the frontend family (seeded change S111)
+for _t in ('quick', 'thorough'):
+    PROPS['C11'][_t] = PROPS['C11'][_t] + [sideb(['frontend'])]
